@@ -7,8 +7,11 @@ import itertools
 from core import hx, exc_name
 
 ID = 'C18'
-MODULES = ['Httoop.Props.C18']
+MODULES = ['Httoop.Props.C18', 'Httoop.Props.C18Invariant']
 THEOREMS = [
+	'Httoop.Parser.run_negotiated',
+	'Httoop.Parser.delivered_requests_negotiated',
+	'Httoop.Parser.c18_invariant_witness',
 	'Httoop.StartLine.natToDec_spec',
 	'Httoop.StartLine.version_roundtrip',
 	'Httoop.StartLine.version_rejects',
@@ -512,7 +515,7 @@ def finding_still_fails(k):
 
 
 LEVEL_TEXT = ('Theorems for ALL inputs: decimal print/parse inverse (natToDec_spec), version compose/parse round trip and rejection of ill-formed versions, the (major, minor) order is a strict total order '
-	'with <=, >= its closures, the server answers 505 exactly above 1.1 and otherwise the lower version, methods over the stated alphabet (1-20) are accepted verbatim and any whitespace/control/8-bit octet rejects, '
+	'with <=, >= its closures, the server answers 505 exactly above 1.1 and otherwise the lower version - also as an INVARIANT OF THE STATE MACHINE (delivered_requests_negotiated): for every sequence of parse() calls with any octets and any number of requests on the connection, every request handed out carries the lower of its own version and 1.1 as response version -, methods over the stated alphabet (1-20) are accepted verbatim and any whitespace/control/8-bit octet rejects, '
 	'every code 100-599 with a phrase of visible ASCII round-trips, wrong field counts reject. The recognisers are tied to the source regexes by pattern-text equality and 256-entry class tables re-proved each run, '
 	'and by exhaustive correspondence over the finite spaces the property names.')
 LEVEL_NOTE = 'Trusted: Lean kernel; Python re for the pinned pattern texts; tuple comparison/min; extract.py/correspondence. Comparison against tuple/text operands goes through Protocol(other) and is covered by the oracle (exhaustive), not by a separate theorem.'
